@@ -367,3 +367,94 @@ def c10_2(run):
     if not any(o[1] for o in outcomes) or not any(o[0] == 'Ok' and not o[1] and not o[2] for o in outcomes):
         raise Inconclusive(f'vacuity: outcomes {outcomes}')
     run.require_reached(*run.cur.reach)
+
+
+# ----------------------------------------------------------------------------------------------------------------- C10-4 BlockCache
+def _cache(ex, k):
+    keys = [z3.BitVec(f'cached_height{i}', 64) for i in range(k)]
+    blocks = []
+    for i in range(k):
+        b = Obj('astria_core::sequencerblock::v1::block::FilteredSequencerBlock', kind='opaque'); b.attrs['tag'] = f'b{i}'; b.attrs['height'] = keys[i]
+        blocks.append(b)
+    nxt = z3.BitVec('next_height', 64)
+    c = B.struct(ex, 'BlockCache', inner=M.new_map('BTreeMap<u64, FilteredSequencerBlock>', list(zip(keys, blocks))), next_height=nxt)
+    inv = [z3.ULT(keys[i], keys[i + 1]) for i in range(k - 1)] + [z3.UGE(x, nxt) for x in keys] + [nxt != 0]
+    return c, keys, blocks, nxt, inv
+
+
+def _cache_view(ex, p, c):
+    m = B.fld(ex, p, c, 'inner', 'BTreeMap')
+    return [(ex.deref_val(p, kk), ex.deref_val(p, v).attrs.get('tag')) for kk, v in m.attrs['items']], B.fld(ex, p, c, 'next_height', 'u64')
+
+
+@obligation('C10', 'C10-4 BlockCache: insert / pop / drop_obsolete keep every cached height >= the next height to pop, pop yields exactly the next height once, old or duplicate heights are refused')
+def c10_4(run):
+    hk = [(re.compile(r'GetSequencerHeight>::get_height$|FilteredSequencerBlock::height$'), lambda ctx: [(None, ctx.ex.deref_val(ctx.st, ctx.args[0]).attrs['height'])]),
+          (re.compile(r'(^|::)Height::value$'), lambda ctx: [(None, ctx.ex.deref_val(ctx.st, ctx.args[0]))])]
+    ex = loader.load(['astria-conductor'], scalar_types=SCALARS, hooks=hk)
+    def fn(name):
+        c = [n for n in ex.fns if n.endswith('::' + name) and 'closure' not in n and (ex.impl_self(n) or (None, ''))[1].split('<')[0] == 'BlockCache']
+        if len(c) != 1:
+            raise Inconclusive(f'BlockCache::{name} not found: {c}')
+        return c[0]
+    run.bound(cache='0..2 cached blocks at arbitrary heights satisfying the invariant (sorted keys = BTreeMap order, all >= next_height, next_height != 0)', heights='all u64', instantiation='T = FilteredSequencerBlock (height read through GetSequencerHeight)')
+    run.assume('the invariant "every cached height >= next_height" is established by with_next_height (empty cache) and shown inductive here')
+    reached = set()
+    for k in (0, 1, 2):
+        # insert
+        c, keys, blocks, nxt, inv = _cache(ex, k)
+        nb = Obj('astria_core::sequencerblock::v1::block::FilteredSequencerBlock', kind='opaque'); nb.attrs['tag'] = 'new'; h = z3.BitVec('new_height', 64); nb.attrs['height'] = h
+        st = ex.start(fn('insert'), [B.cell(c), nb]); st.pc += inv
+        for i, p in enumerate(run.explore(ex, st, allow_havoc=(r'^Arguments::|fmt::',))):
+            lab = f'[insert, {k} cached, path {i}]'
+            if p.kind != 'return':
+                run.prove(f'no panic {lab}', p.pc, z3.BoolVal(False), detail=p.info); continue
+            view, n1 = _cache_view(ex, p, ex.read(p, p.roots['args'][0].loc))
+            tags = [t for _, t in view]
+            res = p.result.discr; reached.add(('insert', res))
+            run.sample({'op': 'insert', 'cached': k, 'path': i, 'result': res, 'after': tags})
+            if res == 'Ok':
+                run.prove(f'accepted => height >= next_height, not cached before; cache = old + this block under its own height; next_height unchanged; invariant holds {lab}', p.pc,
+                          z3.And(z3.UGE(h, nxt), *[h != x for x in keys], z3.BoolVal(sorted(tags) == sorted([f'b{j}' for j in range(k)] + ['new'])), n1 == nxt,
+                                 *[kk == (h if t == 'new' else keys[int(t[1:])]) for kk, t in view], *[z3.UGE(kk, n1) for kk, _ in view]))
+            else:
+                run.prove(f'refused => old (height < next_height) or duplicate height; cache unchanged {lab}', p.pc,
+                          z3.And(z3.Or(z3.ULT(h, nxt), *[h == x for x in keys]), z3.BoolVal(tags == [f'b{j}' for j in range(k)]), n1 == nxt, *[kk == keys[int(t[1:])] for kk, t in view]))
+        # pop
+        c, keys, blocks, nxt, inv = _cache(ex, k)
+        st = ex.start(fn('pop'), [B.cell(c)]); st.pc += inv
+        for i, p in enumerate(run.explore(ex, st, allow_havoc=(r'^Arguments::|fmt::',))):
+            lab = f'[pop, {k} cached, path {i}]'
+            if p.kind != 'return':
+                # next_height == u64::MAX with a block cached at u64::MAX: documented expect
+                run.prove(f'pop panics only when next_height is u64::MAX {lab}', p.pc, nxt == z3.BitVecVal((1 << 64) - 1, 64), detail=p.info); continue
+            view, n1 = _cache_view(ex, p, ex.read(p, p.roots['args'][0].loc))
+            tags = [t for _, t in view]
+            res = p.result.discr; reached.add(('pop', res))
+            run.sample({'op': 'pop', 'cached': k, 'path': i, 'result': res, 'after': tags})
+            if res == 'Some':
+                b = ex.deref_val(p, p.result.fields[('Some', 0)])
+                j = int(b.attrs['tag'][1:])
+                run.prove(f'pop yields the block cached at exactly next_height, removes it, advances next_height by one; invariant holds {lab}', p.pc,
+                          z3.And(keys[j] == nxt, n1 == nxt + 1, z3.BoolVal(tags == [f'b{x}' for x in range(k) if x != j]), *[z3.UGE(kk, n1) for kk, _ in view]))
+            else:
+                run.prove(f'pop yields nothing only if no block is cached at next_height; cache unchanged {lab}', p.pc,
+                          z3.And(*[x != nxt for x in keys], n1 == nxt, z3.BoolVal(tags == [f'b{x}' for x in range(k)])))
+        # drop_obsolete
+        c, keys, blocks, nxt, inv = _cache(ex, k)
+        latest = z3.BitVec('latest_height', 64)
+        st = ex.start(fn('drop_obsolete'), [B.cell(c), latest]); st.pc += inv
+        for i, p in enumerate(run.explore(ex, st, allow_havoc=(r'^Arguments::|fmt::',))):
+            lab = f'[drop_obsolete, {k} cached, path {i}]'
+            if p.kind != 'return':
+                run.prove(f'no panic {lab}', p.pc, z3.BoolVal(False), detail=p.info); continue
+            view, n1 = _cache_view(ex, p, ex.read(p, p.roots['args'][0].loc))
+            tags = [t for _, t in view]; reached.add(('drop_obsolete', 'ok'))
+            run.sample({'op': 'drop_obsolete', 'cached': k, 'path': i, 'after': tags})
+            kept = [z3.BoolVal(f'b{j}' in tags) == z3.UGE(keys[j], latest) for j in range(k)]
+            run.prove(f'next_height = max(next_height, latest); exactly the blocks below latest are dropped; invariant holds {lab}', p.pc,
+                      z3.And(n1 == z3.If(z3.UGT(latest, nxt), latest, nxt), *kept, *[z3.UGE(kk, n1) for kk, _ in view]))
+    for need in (('insert', 'Ok'), ('insert', 'Err'), ('pop', 'Some'), ('pop', 'None'), ('drop_obsolete', 'ok')):
+        if need not in reached:
+            raise Inconclusive(f'vacuity: {need} not reached')
+    run.require_reached(*run.cur.reach)
